@@ -495,6 +495,9 @@ func fieldAddrOf(v ssa.Value) (ssa.Value, *types.Var, bool) {
 }
 
 func constInt(v ssa.Value) (int64, bool) {
+	if v == nil {
+		return 0, false
+	}
 	c, ok := unwrap(v).(*ssa.Const)
 	if !ok || c.Value == nil {
 		return 0, false
@@ -512,6 +515,9 @@ func constInt(v ssa.Value) (int64, bool) {
 }
 
 func constStr(v ssa.Value) (string, bool) {
+	if v == nil {
+		return "", false
+	}
 	c, ok := unwrap(v).(*ssa.Const)
 	if !ok || c.Value == nil || c.Value.Kind() != constant.String {
 		return "", false
